@@ -422,7 +422,7 @@ class FuncAlias:
                 fv = flat(val)
                 for i, te in enumerate(t.elts):
                     # a call returning a tuple of new objects: one object per element
-                    ev = frozenset((o + (i,)) if o[0] == "fresh" and isinstance(vexpr, ast.Call)
+                    ev = frozenset((o + (i,)) if o[0] == "fresh" and len(o) == 3 and isinstance(vexpr, ast.Call)
                                    and o[1:3] == (vexpr.lineno, vexpr.col_offset) else o for o in fv)
                     self._assign(n, te, ev, vexpr, st, put, False)
             return
